@@ -11,4 +11,5 @@ CONSTANTS
   WithCache = FALSE
 INVARIANTS AcceptIffHashLeTarget ShareAcceptedOnlyIfHashLeTarget SealCoversEveryConsensusField OutsideFieldsNotSealed NoSealReuse AuxPowBindsSealHash
 VIEW view
+ACTION_CONSTRAINT EmitHist
 CHECK_DEADLOCK FALSE
